@@ -20,7 +20,7 @@
      VInvS s         VInv for both parties of the two-party system. *)
 From Coq Require Import List ZArith NArith Bool Arith.
 From LV Require Import Channel.Model Channel.Resync Channel.Proofs Channel.View Channel.ViewProofs
-     Channel.ViewRefine.
+     Channel.ViewRefine Channel.ViewSim.
 Import ListNotations.
 Local Open Scope N_scope.
 
@@ -107,19 +107,10 @@ Theorem C01view_restore_partial : forall p x,
             d_remote_unsigned x = d_remote_unsigned y -> v_restore p x = v_restore p y.
 Proof. exact v_restore_partial. Qed.
 
-(* THE REFINEMENT THEOREM, PARTIAL.  Full statement (NOT proved):
-     forall c s0 v0 vops, init_sys c = Some s0 -> vinit c = Some v0 ->
-       let (s, v) := run_along c s0 v0 vops in   (* s = run c s0 (map erase vops) *)
-       (forall p, commits_view (vget v p) = (lTail (get s p), lTip (get s p), rTail (get s p), rTip (get s p)))
-       /\ vqAB v = qAB s /\ vqBA v = qBA s
-   (run_along steps the incremental machine exactly when the cut model accepts the op;
-   decidable form: refinesb, tested on schedules in ViewExamples.v), so that
-   every C01 theorem transfers.  Proved here: the commitment CONSTRUCTION of the incremental
-   machine (finish_commit, used by fetchCommitmentView) is literally commit_of's once the gross
-   balances, the fee rate and the live HTLC sets of the cut are supplied.  MISSING (notes/C01view.md):
-   computeView's (ours, theirs, rate, live sets) equal (cut_gross, cut_rate, live_adds) of the cut -
-   it needs the entry <-> update correspondence of compacted logs on top of VInv / (b). *)
-Theorem C01view_refinement_partial : forall c o h lA lB nA nB,
+(* The commitment CONSTRUCTION of the incremental machine (finish_commit, used by
+   fetchCommitmentView) is literally commit_of's once the gross balances, the fee rate and the
+   live HTLC sets of the cut are supplied. *)
+Theorem C01view_commit_of_finish : forall c o h lA lB nA nB,
   commit_of c o h lA lB nA nB =
   let uA := firstn nA lA in let uB := firstn nB lB in
   if negb (nodupb (map fst (removes_of uB)) && nodupb (map fst (removes_of uA))) then None else
@@ -134,16 +125,82 @@ Theorem C01view_refinement_partial : forall c o h lA lB nA nB,
   end.
 Proof. exact commit_of_finish. Qed.
 
+(* =============================================================================================
+   THE REFINEMENT THEOREM (ViewSim.v).  For EVERY schedule vops of the two-party system (sends incl.
+   update_fail_malformed_htlc, signs, revokes, deliveries, any interleaving, refused ops included),
+   running the incremental machine of View.v ALONGSIDE the cut-level model of Model.v
+   (run_along: the incremental machine is stepped exactly when the cut model accepts the op; the
+   cut-level state is run c s0 (map erase vops)):
+     - all eight commitments (both parties: local / remote tail and tip) of the incremental
+       machine - balances, HTLC sets, fee, fee rate, heights, cuts - EQUAL those of the cut model,
+       i.e. commit_of at the cut the cut model uses,
+     - both message queues are equal (same updates, same commit_sig descriptors, same revocations),
+     - the log counters equal the lengths of the update lists.
+   Hence every C01 theorem transfers (two instances below). *)
+Theorem C01view_refinement : forall c s0 v0 vops,
+  init_sys c = Some s0 -> vinit c = Some v0 ->
+  let (s, v) := run_along c s0 v0 vops in
+  s = run c s0 (map erase vops) /\
+  (forall p, commits_view (vget v p) =
+             (lTail (get s p), lTip (get s p), rTail (get s p), rTip (get s p))) /\
+  vqAB v = qAB s /\ vqBA v = qBA s /\
+  (forall p, l_idx (vl (vget v p)) = N.of_nat (length (own (get s p))) /\
+             l_idx (vr (vget v p)) = N.of_nat (length (peer (get s p)))).
+Proof. exact view_refines_model. Qed.
+
+(* ... and every op the cut-level model accepts in such a state is accepted (Ok) by the
+   incremental machine: fetchParent never fails, no balance check differs, the in-place fee merge
+   takes the same decision, SettleHTLC / FailHTLC find the HTLC and it is not marked modified. *)
+Theorem C01view_refinement_accepts : forall c s0 v0 vops o s',
+  init_sys c = Some s0 -> vinit c = Some v0 ->
+  step c (fst (run_along c s0 v0 vops)) (erase o) = (Ok, s') ->
+  fst (vstep c (snd (run_along c s0 v0 vops)) o) = Ok.
+Proof. exact view_accepts. Qed.
+
+(* the inductive core: the simulation relation Sim (Proofs.Inv of the cut-level system, equal
+   queues, CorrX for both parties) is kept by every accepted step *)
+Theorem C01view_sim_step : forall c s v o s',
+  Sim c s v -> step c s (erase o) = (Ok, s') ->
+  exists v', vstep c v o = (Ok, v') /\ Sim c s' v'.
+Proof. exact sim_step. Qed.
+
+(* (c) strengthened: compactLogs EXACTLY - under unique keys, what remains of each log is the
+   filter [keep]: an entry stays iff it does not meet the eviction condition and is not the Add
+   named by an evictable settle / fail of the other log (so everything evictable IS evicted). *)
+Theorem C01view_compaction_exact : forall l r lt rt l' r',
+  NoDup (l_list l) -> uq_log (l_list l) -> uq_htlc (l_list l) ->
+  NoDup (l_list r) -> uq_log (l_list r) -> uq_htlc (l_list r) ->
+  compactLogs l r lt rt = (l', r') ->
+  l_list l' = filter (keep lt rt (l_list r)) (l_list l) /\
+  l_list r' = filter (keep lt rt (l_list l)) (l_list r) /\
+  l_idx l' = l_idx l /\ l_htlc l' = l_htlc l /\ l_idx r' = l_idx r /\ l_htlc r' = l_htlc r /\
+  (forall i, memN i (l_mod l') = true -> memN i (l_mod l) = true) /\
+  (forall i, memN i (l_mod r') = true -> memN i (l_mod r) = true).
+Proof. exact compactLogs_exact. Qed.
+
+(* transfer of C01_conservation and C01_agreement to the incremental machine *)
+Theorem C01view_conservation : forall c s0 v0 vops,
+  cfg_ok c -> init_sys c = Some s0 -> vinit c = Some v0 ->
+  forall p k, In k (vcommits_of (vget (snd (run_along c s0 v0 vops)) p)) -> conserved c k.
+Proof. exact view_conservation. Qed.
+
+Theorem C01view_agreement : forall c s0 v0 vops p k q,
+  cfg_ok c -> init_sys c = Some s0 -> vinit c = Some v0 ->
+  voutq (snd (run_along c s0 v0 vops)) (negb p) = MSig k :: q ->
+  fst (vstep c (snd (run_along c s0 v0 vops)) (VOp (ODeliver p))) = Ok.
+Proof. exact view_agreement. Qed.
+
 (* ---------------------------------------------------------------------------------------------
    THE FORMERLY MISSING LEMMA of the refinement (ViewRefine.v), proved:
    computeView over COMPACTED entry logs = the cut.
      LogCorr L Lo U Ft Fo   the entry log U stands for the update list L (other log Lo): the
-                            LogIndexes of U, in list order, are exactly the PRESENT indices of L -
-                            a settle / fail / fee update is present iff its index is >= the
-                            compaction frontier Ft of its log, an Add iff no settle / fail naming it
-                            lies below the frontier Fo of the other log - and every entry carries
-                            type, indices and amounts of its update (a settle / fail the amount of
-                            the Add it names).
+                            LogIndexes of U are - as a set (Permutation; after a restart list order
+                            is not index order) - exactly the PRESENT indices of L: a settle / fail
+                            / fee update is present iff its index is >= the compaction frontier Ft
+                            of its log, an Add iff no settle / fail naming it lies below the
+                            frontier Fo of the other log; the FEE updates appear in index order;
+                            every entry carries type, indices and amounts of its update (a settle /
+                            fail the amount of the Add it names).
    For party p, chain w, the chain's newest commitment [tip] (itself commit_of of its cut over p's
    logs) and any larger cut (nO, nP) inside the logs: if heights are set exactly below tip's cut
    (C01view_height_set_iff_included), every settle / fail names an Add committed below tip's cut
@@ -196,8 +253,7 @@ Proof. exact recv_sig_refines. Qed.
 
 (* Corr is an invariant of the commitment dance: it holds for the freshly funded channel and is
    kept - together with the equality of the step's result and message - by SignNextCommitment,
-   ReceiveNewCommitment and RevokeCurrentCommitment.  (NOT yet proved: that update creation /
-   delivery and ReceiveRevocation's compaction keep it; see notes/C01view.md.) *)
+   ReceiveNewCommitment and RevokeCurrentCommitment.  (Update creation / delivery and ReceiveRevocation: ViewSim.v, used by C01view_sim_step.) *)
 Theorem C01view_corr_init : forall c p x y,
   init_party c p = Some x -> vinit_party c p = Some y -> Corr c p x y 0 0.
 Proof. exact corr_init. Qed.
@@ -225,7 +281,13 @@ Print Assumptions C01view_balance_once.
 Print Assumptions C01view_compaction_removes_only_locked.
 Print Assumptions C01view_compacted_below_both_tails.
 Print Assumptions C01view_restore_partial.
-Print Assumptions C01view_refinement_partial.
+Print Assumptions C01view_commit_of_finish.
+Print Assumptions C01view_refinement.
+Print Assumptions C01view_refinement_accepts.
+Print Assumptions C01view_sim_step.
+Print Assumptions C01view_compaction_exact.
+Print Assumptions C01view_conservation.
+Print Assumptions C01view_agreement.
 Print Assumptions C01view_computeView_is_cut.
 Print Assumptions C01view_sign_refines.
 Print Assumptions C01view_recv_sig_refines.
